@@ -159,7 +159,29 @@ def emit_extra(h, rng, U, kind):
             n = rng.choice([0, 1, 2, 3, 5])
             lk = live_keys(h)
             q = rng.random()
-            if lk and q < 0.6:
+            if lk and q < 0.18:
+                # request SHAPES: ascending / descending runs of present keys, short and long (longer than a node, longer
+                # than a leaf chain segment), with an absent key nowhere, at the head, in the middle or at the tail
+                run = sorted(lk)
+                a = rng.randrange(len(run))
+                ks = run[a:a + rng.choice([2, 5, 9, 17, 33, 70])]
+                if rng.random() < 0.25:
+                    ks.reverse()
+                where = rng.choice(["none", "none", "head", "mid", "tail", "tail", "tail2"])
+                absent = [k for k in (run[-1] + 1, run[-1] + 7, run[0] - 1, ks[-1] + 1, ks[0] - 1) if k not in set(lk)]
+                lks = set(lk)
+                gap = [k for k in range(min(ks), max(ks)) if k not in lks] if max(ks) - min(ks) < 500 else \
+                      [k + 1 for k in ks if k + 1 not in lks and k + 1 < max(ks)]
+                if where == "head" and absent:
+                    ks.insert(0, min(absent))
+                elif where == "mid" and gap:
+                    ks = sorted(ks + [rng.choice(gap)], reverse=(len(ks) > 1 and ks[0] > ks[-1]))
+                elif where == "tail" and absent:
+                    ks.append(max(absent))
+                elif where == "tail2":
+                    ks += [run[-1] + 3, run[-1] + 4]
+                h.add("GM " + " ".join(str(k) for k in ks[:90]))
+            elif lk and q < 0.6:
                 # all requested keys present: distinct, or with repeats and possibly longer than the map
                 if q < 0.3:
                     ks = rng.sample(lk, min(len(lk), n))
